@@ -21,6 +21,12 @@ Clauses (see notes/C06.md):
                         history of calls sharing a `cache`; every occurrence equals the fresh single expansion
   user-tables        B  random user snippet tables: overriding and new keys, property and raw kinds
   user-case-keys     B  user keys that differ from another key only in letter case
+  global-config-tables B random user snippet tables handed over through the *global* config (second argument of expand()):
+                        a block for the `stylesheet` type, a block for the syntax in use, the per-call config, in every
+                        combination, next to blocks that hold only options / variables and blocks for other syntaxes
+  sibling-keyword-history B snippets that share their CSS property (built-in font-family family; every built-in property
+                        snippet next to a user snippet of the same property; pairs of user snippets): `sibling:word` and then
+                        `key:word` with the same `cache` -- the keyword listed by `key` still resolves to itself
 
 The expected output is computed from the snippet *text* (the table entry) and the statement; the
 `between` / `after` strings are read from the resolved Config (they are C05 / C20 matter, not C06).
@@ -386,6 +392,135 @@ def check_user_table(syntax, scope, user, probe_builtin):
     return None
 
 
+# ---- user snippets through the global config ---------------------------------------------------
+# "A user-defined snippet replaces a built-in one under the same key, is reachable under a new key" -- however the user
+# handed it over.  expand(abbr, config, global_config) / Config(config, global_config) accept user snippets in three
+# places: global_config['stylesheet'] (for the whole type), global_config[<syntax>] (for one syntax) and
+# config['snippets'] (per call).  The layers of one case use different keys (also up to letter case), so the oracle needs
+# no precedence rule between them: the expected table is the built-in one with every user entry put in.
+
+EXTRA_BLOCKS = [{'options': {'stylesheet.intUnit': 'px'}}, {'variables': {'lang': 'en'}},
+                {'options': {'stylesheet.floatUnit': 'em', 'stylesheet.fuzzySearchMinScore': 0}, 'variables': {'charset': 'UTF-8'}}]
+
+
+def _global_config(syntax, type_snips, syntax_snips, type_extra, syntax_extra, distract):
+    glob = {}
+    for name, snips, extra in (('stylesheet', type_snips, type_extra), (syntax, syntax_snips, syntax_extra)):
+        block = {}
+        if extra:
+            block.update({k: dict(v) for k, v in extra.items()})
+        if snips is not None:
+            block['snippets'] = dict(snips)
+        if block:
+            glob[name] = block
+    if distract:
+        # blocks that are not for this expansion: another stylesheet syntax, the markup type
+        other = STYLESHEET_SYNTAXES[(STYLESHEET_SYNTAXES.index(syntax) + 1) % len(STYLESHEET_SYNTAXES)]
+        glob[other] = {'snippets': {'zzother': 'my-prop:other'}, 'options': {'stylesheet.between': ' :: '}}
+        glob['markup'] = {'snippets': {'zzmark': 'div.zzmark'}}
+    return glob
+
+
+def check_global_tables(syntax, scope, type_snips, syntax_snips, call_snips, type_extra, syntax_extra, distract, probe_builtin):
+    """type_snips / syntax_snips / call_snips: {key: body} or None -- user snippets in global_config['stylesheet'],
+    global_config[syntax] and config['snippets'] (pairwise different keys); type_extra / syntax_extra: options / variables
+    (default values) carried by the two global blocks.  Every user key and every probed built-in key reaches its own snippet"""
+    from emmet import expand
+    from emmet.config import Config
+    builtin, _, _ = _table(syntax)
+    glob = _global_config(syntax, type_snips, syntax_snips, type_extra, syntax_extra, distract)
+    layers = (('global_config[stylesheet]', type_snips), ('global_config[%s]' % syntax, syntax_snips), ('config', call_snips))
+    want = dict(builtin)
+    origin = {}
+    for name, snips in layers:
+        for k, b in (snips or {}).items():
+            if k in origin:
+                return 'generator: key %r occurs in two layers' % k
+            want[k] = b
+            origin[k] = name
+    where = 'syntax=%s, scope=%s, global config %r, config snippets %r' % (syntax, scope, glob, call_snips)
+    resolved = Config(_config(syntax, scope, call_snips), glob)
+    between, after = resolved.options['stylesheet.between'], resolved.options['stylesheet.after']
+    for k, name in origin.items():
+        if resolved.snippets.get(k) != want[k]:
+            return 'merged table: user snippet %r given in %s does not replace / add the entry (found %r; %s)' % (
+                k, name, resolved.snippets.get(k), where)
+    cache = {}
+    for key in list(origin) + [k for k in probe_builtin if k not in origin]:
+        body = want[key]
+        kind = classify(body)[0]
+        out = expand(key, _config(syntax, scope, call_snips, cache), glob)
+        if _permitted(kind, scope):
+            err = judge_own(out, body, between, after)
+        else:
+            err = _judge_other_kind(out, want, scope, between)
+        if err:
+            return 'expand(%r, %s) for %s snippet %r: %s' % (
+                key, where, 'user (%s)' % origin[key] if key in origin else 'built-in', body, err)
+    return None
+
+
+# ---- keyword lookups after a sibling snippet of the same property -------------------------------------
+# "A dash-free keyword listed by a property snippet, typed in full (in any letter case) after the key, resolves to that
+# keyword" -- whatever was asked before of *another* snippet with the same Config `cache`.  Snippets that share their CSS
+# property but not their keyword lists (built-in: ff / fft / ffa / ffv; any user snippet written for a property the table
+# already has) are the histories in which a lookup remembered per property, not per snippet, shows.
+
+
+def listed_keywords(body):
+    """(words, function names) -- every dash-free keyword the property snippet `body` lists, ambiguous ones dropped"""
+    kind = classify(body)
+    if kind[0] != 'prop':
+        return [], []
+    words, funcs = keywords_of(kind[2])
+    return unambiguous(words + [w for w in inner_keywords_of(kind[2]) if w not in words], funcs)
+
+
+def _judge_keyword(out, prop, between, after, w, is_word):
+    if is_word:
+        exp = prop + between + w + after
+        return exp, out == exp
+    exp = prop + between + w + '(...)' + after
+    return exp, (isinstance(out, str) and out.startswith(prop + between) and out.endswith(after) and
+                 norm(defield(out[len(prop + between):])).startswith(w + '('))
+
+
+def check_sibling_history(syntax, scope, keys, user):
+    """keys: keys of the merged table (built-in + `user`) whose snippets share one CSS property.  For every ordered pair
+    (sibling, key) and every keyword `key` lists: expand(sibling:typed) -- outcome not judged, the statement is silent when
+    the sibling does not list the word -- and then expand(key:typed) with the same `cache` must give the keyword as listed"""
+    from emmet import expand
+    table, between, after = _table(syntax, user)
+    props = set(classify(table[k])[1] if classify(table[k])[0] == 'prop' else None for k in keys)
+    if len(props) != 1 or None in props:
+        return 'generator: keys %r do not share one property (%r)' % (keys, props)
+    prop = props.pop()
+    for sibling in keys:
+        for key in keys:
+            if key == sibling:
+                continue
+            words, funcs = listed_keywords(table[key])
+            cache = {}
+            n = 0
+            for w in words + funcs:
+                for typed in case_variants(w):
+                    n += 1
+                    for sep in ((':', '-')[n % 2],):          # both forms, alternating over the typed words
+                        first = sibling + sep + typed
+                        try:
+                            expand(first, _config(syntax, scope, user, cache))
+                        except Exception:
+                            pass
+                        abbr = key + sep + typed
+                        out = expand(abbr, _config(syntax, scope, user, cache))
+                        exp, ok = _judge_keyword(out, prop, between, after, w, w in words)
+                        if not ok:
+                            return ('expand(%r, syntax=%s, scope=%s%s) after expand(%r) with the same `cache`: keyword %r listed by %r '
+                                    'must resolve to itself: expected %r, got %r' % (
+                                        abbr, syntax, scope, ', user snippets %r' % (user,) if user else '', first, w, table[key], exp, out))
+    return None
+
+
 # ---- history independence -------------------------------------------------------------------
 # The statement has no "unless something else was expanded before": a key / a keyword typed in full selects its snippet /
 # keyword whatever preceded it -- an earlier property of the same `+`-joined abbreviation, or an earlier expand() call
@@ -599,6 +734,80 @@ def gen_keyword_tables(seed, n, bk):
         yield (syntax, user)
 
 
+def gen_global_tables(seed, n, bk):
+    """user tables of random_user_table split over the three places a user can put snippets"""
+    rnd = random.Random(seed * 104729 + 61)
+    shapes = [('type',), ('syntax',), ('type', 'syntax'), ('type', 'call'), ('syntax', 'call'), ('type', 'syntax', 'call'),
+              ('type', 'syntax'), ('type',)]
+    for i in range(n):
+        syntax = STYLESHEET_SYNTAXES[i % len(STYLESHEET_SYNTAXES)]
+        scope = rnd.choice([None, None, None, '@@global', '@@section', '@@property'])
+        shape = shapes[(i // len(STYLESHEET_SYNTAXES)) % len(shapes)]
+        user = random_user_table(rnd, bk[syntax], 6)
+        layers = {'type': None, 'syntax': None, 'call': None}
+        for name in shape:
+            layers[name] = {}
+        for j, (k, b) in enumerate(user.items()):
+            layers[shape[j % len(shape)] if j < len(shape) else rnd.choice(shape)][k] = b
+        # a global block may also hold no snippets at all, only options / variables (here: the default values)
+        type_extra = rnd.choice(EXTRA_BLOCKS) if rnd.random() < 0.4 else None
+        syntax_extra = rnd.choice(EXTRA_BLOCKS) if rnd.random() < (0.7 if layers['syntax'] is None else 0.3) else None
+        probe = rnd.sample([k for k in bk[syntax] if k != 'lg'], 3)      # `lg`: known finding KF-C06-LG
+        yield (syntax, scope, layers['type'], layers['syntax'], layers['call'], type_extra, syntax_extra, rnd.random() < 0.3, probe)
+
+
+def same_property_groups(table):
+    """built-in keys (without `lg`, known finding) grouped by CSS property, groups of 2+ in which some snippet lists a keyword"""
+    groups = {}
+    for k in sorted(table):
+        kind = classify(table[k])
+        if kind[0] == 'prop' and k != 'lg':
+            groups.setdefault(kind[1], []).append(k)
+    return [ks for p, ks in sorted(groups.items()) if len(ks) > 1 and any(sum(listed_keywords(table[k]), []) for k in ks)]
+
+
+def with_property(snippet, prop):
+    return prop + snippet[re.match(r'[a-z-]+', snippet).end():]
+
+
+def gen_sibling_cases(seed, npairs, bk):
+    from emmet.config import Config
+    rnd = random.Random(seed * 15485863 + 606)
+    scopes = [None, '@@property', '@@global']
+    n = 0
+
+    def new_key(taken):
+        while True:
+            key = ''.join(rnd.choice('abcdefghijklmnopqrstuvwxyz') for _i in range(rnd.randint(2, 6)))
+            if key not in taken and key != 'lg':
+                return key
+
+    for s in STYLESHEET_SYNTAXES:
+        table = Config({'type': 'stylesheet', 'syntax': s}).snippets
+        # (1) the built-in families
+        for keys in same_property_groups(table):
+            for scope in scopes:
+                yield (s, scope, keys, None)
+        # (2) every built-in property snippet that lists a keyword, next to a user snippet written for the same property
+        for k in bk[s]:
+            if k == 'lg' or not sum(listed_keywords(table[k]), []):
+                continue
+            prop = classify(table[k])[1]
+            sib = new_key(bk[s])
+            n += 1
+            yield (s, scopes[n % 3], [k, sib], {sib: with_property(random_keyword_snippet(rnd), prop)})
+    # (3) two or three user snippets for one property (new keys, or one of them overriding a built-in key)
+    for i in range(npairs):
+        s = STYLESHEET_SYNTAXES[i % len(STYLESHEET_SYNTAXES)]
+        prop = rnd.choice(USER_PROPS)
+        user = {}
+        for _ in range(rnd.randint(2, 3)):
+            key = rnd.choice([k for k in bk[s] if k != 'lg']) if rnd.random() < 0.25 else new_key(list(bk[s]) + list(user))
+            user[key] = with_property(random_keyword_snippet(rnd), prop)
+        if len(user) > 1:
+            yield (s, scopes[i % 3], list(user), user)
+
+
 def check_override(syntax, key, body):
     """a user snippet under a built-in key replaces the built-in one"""
     return check_user_table(syntax, None, {key: body}, [])
@@ -729,5 +938,33 @@ def run(tier, seed):
                'a case is ({VARIANT: body}, [base key]): both the user key and the built-in key it resembles must still select '
                'their own snippet ("typing the key exactly selects that snippet and no other")', exhaustive=True)
     run_parallel(c, 'bounded.c06', 'check_user_table', gen_case_tables(bases), chunk=8)
+    out.append(c.done())
+
+    n = 900 if quick else 30000
+    c = Clause('global-config-tables', 'B', 'random.Random(seed) user snippet tables (as user-tables: 1..6 entries, overriding and new keys, property '
+               'and raw kinds) split over the places a user can put snippets: global_config[stylesheet], global_config[<syntax in use>], '
+               'config[snippets] -- shapes type / syntax / type+syntax / type+call / syntax+call / all three, pairwise different keys; each '
+               'global block may in addition (or only) carry options / variables with their default values (%d forms); 30%% with blocks for '
+               'another stylesheet syntax and for markup next to them' % len(EXTRA_BLOCKS),
+               '%d cases, seed %d, syntax cycling through %r, scope random in none/@@global/@@section/@@property, 3 probed built-in keys'
+               % (n, seed, STYLESHEET_SYNTAXES),
+               'a case is (syntax, scope, type snippets, syntax snippets, call snippets, type extra, syntax extra, distractors, probes): '
+               'Config(config, global_config).snippets holds every user entry, and expand(key, config, global_config) of every user key '
+               'and every probed built-in key is its own snippet (scope permitting) -- expected table = built-in table with all user '
+               'entries put in', exhaustive=False)
+    run_parallel(c, 'bounded.c06', 'check_global_tables', gen_global_tables(seed, n, bk), chunk=25)
+    out.append(c.done())
+
+    n = 120 if quick else 6000
+    c = Clause('sibling-keyword-history', 'B', 'groups of snippets sharing one CSS property: (1) the built-in groups (font-family: ff fft ffa ffv; '
+               '`lg` left out) x 3 scopes, (2) every built-in property snippet that lists a dash-free keyword next to a random user snippet '
+               '(random_keyword_snippet) written for the same property under a new key, (3) random.Random(seed) tables of 2..3 user snippets for '
+               'one property (25%% overriding a built-in key)',
+               'syntaxes %r, scope cycling none/@@property/@@global, %d tables of kind (3), seed %d; per ordered pair (sibling, key) and per '
+               'keyword listed by key: case variants, forms `key:kw` / `key-kw` alternating' % (STYLESHEET_SYNTAXES, n, seed),
+               'a case is (syntax, scope, keys, user table): with one `cache` per ordered pair, expand(sibling:typed) (not judged) and then '
+               'expand(key:typed) must give `<property><between><keyword as listed><after>` (function name: value starts with `name(`)',
+               exhaustive=False)
+    run_parallel(c, 'bounded.c06', 'check_sibling_history', gen_sibling_cases(seed, n, bk), chunk=12)
     out.append(c.done())
     return out
